@@ -69,7 +69,12 @@ def cases(draw, family=None):
             "subdaily": draw(st.sampled_from([False, False, True])), "sub_alt": draw(st.sampled_from(SUB_ALTS)), "feed_h0": draw(st.sampled_from([0, 0, 19, 7])),
             # CalTRACK hourly only: the reporting period arrives as two series through from_series; the meter series then either
             # carries NaN where readings are missing or simply does not have those rows
-            "series_entry": draw(st.booleans()), "meter_rows_absent": draw(st.booleans())}
+            "series_entry": draw(st.booleans()), "meter_rows_absent": draw(st.booleans()),
+            # some timestamps are delivered twice: first a stub (no usage yet, a provisional temperature), later the full record;
+            # the first delivery counts, whatever its usage field holds
+            "dups": draw(st.lists(st.integers(0, 10 ** 6), max_size=3)),
+            # daily family, sub-daily input: as one DataFrame handed to the constructor instead of two series through from_series
+            "sub_entry": draw(st.sampled_from(["from_series", "from_series", "frame"]))}
 
 
 def alter(df, c):
@@ -126,6 +131,10 @@ def alter(df, c):
     return out
 
 
+def series_entry_wanted(c, fam):
+    return (bool(c.get("series_entry")) and fam == "caltrack") or (bool(c.get("subdaily")) and fam == "daily" and c.get("sub_entry", "from_series") == "from_series")
+
+
 def judge(c, rec):
     b = c["baseline"]
     fam = b["family"]
@@ -149,6 +158,23 @@ def judge(c, rec):
         df = hourly_from_daily(df, c)
         c = dict(c, alt=c["sub_alt"])
     df2 = alter(df, c)
+    ndup = 0
+    if c.get("dups") and not series_entry_wanted(c, fam) and len(df) > 4:
+        def with_stubs(frame):
+            parts = []
+            for k in c["dups"]:
+                i = 1 + k % (len(frame) - 2)
+                stub = frame.iloc[[i]].copy()
+                if "observed" in stub:
+                    stub["observed"] = np.nan
+                stub["temperature"] = frame["temperature"].iloc[i] + 9.0
+                parts.append((i, stub))
+            out = frame
+            for i, stub in sorted(parts, key=lambda t: -t[0]):
+                out = pd.concat([out.iloc[:i], stub, out.iloc[i:]])
+            return out
+        df, df2 = with_stubs(df), with_stubs(df2)
+        ndup = len(c["dups"])
     cls = ["family=" + fam, "profile=" + b["profile"], "alt=" + c["alt"], "n=%d" % c["rep"]["n"], "used-model=%d" % bool(c.get("interim")), "weather-gaps=%d" % min(gaps, 1)]
     series_entry = bool(c.get("series_entry")) and fam == "caltrack"
 
@@ -166,12 +192,24 @@ def judge(c, rec):
         from opendsm import eemeter as em
 
         with contextlib.redirect_stdout(io.StringIO()):
+            if c.get("sub_entry") == "frame":
+                return em.DailyReportingData(frame.copy(), is_electricity_data=b.get("electric", True))
             return em.DailyReportingData.from_series(frame["observed"] if "observed" in frame else None, frame["temperature"],
                                                      is_electricity_data=b.get("electric", True))
 
-    cls = cls + ["entry=" + ("hourly-from_series" if sub else "caltrack-from_series" if series_entry else "frame"),
+    cls = cls + ["entry=" + (("hourly-" + c.get("sub_entry", "from_series")) if sub else "caltrack-from_series" if series_entry else "frame"),
+                 "stub-duplicates=%d" % min(ndup, 1),
                  "baseline-weekly-gap=%d" % bool(b.get("weekly_gap"))]
-    rep1 = mk(df)
+    try:
+        rep1 = mk(df)
+    except Exception as e:
+        bkt = exc_bucket(e)
+        if bkt is None or "Billing data is not allowed" not in str(e):
+            raise
+        # a one-week daily span with holes is read as billing data by the daily class: acceptance is C10's subject
+        rec.note("original-data-rejected:" + bkt)
+        rec.case(c, False, cls + ["original-data-rejected"])
+        return
     try:
         p1 = zoo.predict(m, b, rep1)
     except Exception as e:
